@@ -330,7 +330,7 @@ class Check:
     # --- proof side
     def proofs(self):
         try:
-            translate()
+            self.notes += [l for l in translate().splitlines() if "FALLBACK" in l]
             thorough = self.tier == "thorough"
             self.theorems, self.discharged, self.axioms = coq_build_property(self.pid, clean=False)
             if thorough:
